@@ -22,7 +22,8 @@ func (g *G) number() X {
 
 func (g *G) str() X {
 	v := rapid.SampledFrom([]string{"x", "abc", "", "it's", "a b", "%x%", "select", "1", "é", "--c", "/*", "k", "{\"a\":1}",
-		"line1\nline2", "tab\there", "back\\slash", "cr\rlf\n", "q\"uote", "Mixed Case", "NULL"}).Draw(g.T, "str")
+		"line1\nline2", "tab\there", "back\\slash", "cr\rlf\n", "q\"uote", "Mixed Case", "NULL",
+		"left join", "GROUP BY", "order by", "full outer join"}).Draw(g.T, "str")
 	g.Names.Strings[v] = true
 	var b strings.Builder
 	b.WriteByte('\'')
